@@ -651,7 +651,7 @@ func c11BuilderParts(env *mc.Env) []c11BPart {
 	}
 	orderQuick := func(f string) *c11Alpha {
 		return &c11Alpha{qos: []string{"BE"}, prio: []*int32{batch, batch2, mid, nil}, enabled: []bool{true}, policy: un,
-			evp: []*string{nil, c11Str("-1"), c11Str("x")}, sub: []*string{nil, c11Str("9")},
+			evp: []*string{nil, c11Str("-1"), c11Str("x")}, sub: []*string{nil, c11Str("1"), c11Str("9")},
 			usage: []int64{-1, 0, 3}, req: []int64{0, 2}, inactive: []bool{false}}
 	}
 	ths := []int32{5999, 7999, 9999}
@@ -677,7 +677,7 @@ func c11BuilderParts(env *mc.Env) []c11BPart {
 
 var c11Features = []string{c11FBE, c11FUsed, c11FAlloc}
 
-func c11RunBuilderParts(env *mc.Env, unit string) {
+func c11RunBuilderParts(env *mc.Env, unit string) (emitted []*mc.Result) {
 	bparts := c11BuilderParts(env)
 	for bi, bp := range bparts {
 		bp := bp
@@ -736,7 +736,9 @@ func c11RunBuilderParts(env *mc.Env, unit string) {
 			res.Diag(fmt.Sprintf("%d pods allowed by the statement's policy were not listed (no metric, inactive, BE pod not evict-enabled under a priority strategy ...): not a violation, the statement is one-directional", n))
 		}
 		env.Emit(res)
+		emitted = append(emitted, res)
 	}
+	return emitted
 }
 
 // ---------------------------------------------------------------------------------------------- whole-round parts
@@ -817,6 +819,9 @@ func c11EParts(env *mc.Env) []c11EPart {
 		if !c11NeedsReq(fs) {
 			req = []int64{2}
 		}
+		if len(fs) == 1 && fs[0] == c11FBE {
+			evp = un // the best-effort strategy does not read the annotation
+		}
 		parts = append(parts, c11EPart{"round-" + strings.Join(fs, "+") + suffix, n, fs, kinds, evp, usage, req, rich})
 	}
 	U2, U3, U4, R2 := []int64{0, 3}, []int64{0, 1, 3}, []int64{-1, 0, 1, 3}, []int64{0, 2}
@@ -853,7 +858,7 @@ func c11EParts(env *mc.Env) []c11EPart {
 	return parts
 }
 
-func c11RunRoundParts(env *mc.Env, unit string) {
+func c11RunRoundParts(env *mc.Env, unit string) (emitted []*mc.Result) {
 	eparts := c11EParts(env)
 	for ei, ep := range eparts {
 		ep := ep
@@ -950,21 +955,46 @@ func c11RunRoundParts(env *mc.Env, unit string) {
 			res.Diag(fmt.Sprintf("%d task runs ended with the target not covered (by the pods' true contributions) although an untried listed candidate would free something of it (not a violation: the statement bounds eviction from above only)", n))
 		}
 		env.Emit(res)
+		emitted = append(emitted, res)
 	}
+	return emitted
 }
 
-// c11Replay re-executes the case of a replay file (VERIF_REPLAY) and prints what happened.
+// c11RunUnit runs the builder parts, the whole-round parts and the vacuity summary of one package.
+func c11RunUnit(env *mc.Env) {
+	parts := c11RunBuilderParts(env, c11Unit)
+	parts = append(parts, c11RunRoundParts(env, c11Unit)...)
+	c11Vacuity(env, c11Unit, parts, append([]string{"listed_pods_judged", "lists_with_filtered_pods", "order_pairs_decided_by_eviction-priority",
+		"order_pairs_decided_by_priority", "order_pairs_decided_by_priority-label", "order_pairs_decided_by_request", "order_pairs_decided_by_" + c11BEKeyName,
+		"order_pairs_incomparable"}, c11RoundVacuity...))
+}
+
+// c11Replay re-executes the case of a replay file (VERIF_REPLAY) and prints what happened. Every unit receives
+// the replay file; only the unit that produced it re-executes the case.
 func c11Replay(env *mc.Env) bool {
 	var raw map[string]json.RawMessage
-	if _, ok := env.ReplayData(&raw); !ok {
+	part, ok := env.ReplayData(&raw)
+	if !ok {
 		return false
 	}
+	res := mc.NewResult("C11", c11Unit+"-replay", "faults")
+	res.Exhaustive = true
+	defer env.Emit(res)
+	if !strings.HasPrefix(part, c11Unit+"-") {
+		return true
+	}
+	res.Evaluations = 1
 	if _, isB := raw["feature"]; isB {
 		var bc c11BCase
 		env.ReplayData(&bc)
+		rep := &c11Reporter{}
+		ds := mc.NewDistinctSet()
 		cfg := c11BuilderCfg(bc.PrioTh)
 		w := c11NewWorld(bc.Pods, &cfg)
 		fmt.Printf("REPLAY builder %s th=%d pods=%v -> list %v\n", bc.Feature, bc.PrioTh, bc.Pods, c11Indices(w.list(bc.Feature)))
+		penv := c11PartEnv(env, 1)
+		penv.Workers = 1
+		penv.ParallelRangeL(res, 1, func(l *mc.Local, _ int64) { c11BuilderCheck(res, rep, l, ds, c11Unit+"-builders", &bc) })
 		return true
 	}
 	var c c11MCase
@@ -973,6 +1003,11 @@ func c11Replay(env *mc.Env) bool {
 	fmt.Printf("REPLAY case=%v\n tasks=%+v\n calls=%v\n returned=%v panic=%q\n", c, o.tasks, c11EvictsOnly(o.ex.events), o.returned, o.panicS)
 	for _, f := range c11MJudge(&c, &o, func(string, int64) {}) {
 		fmt.Printf(" FINDING %s: %s\n", f.Clause, f.What)
+		feat := ""
+		if f.Task >= 0 {
+			feat = c11FeatureOfReason(o.tasks[f.Task].Name) + "|"
+		}
+		res.Violate(mc.Violation{Key: "C11|" + c11Unit + "-round|" + feat + f.Clause, What: f.What + "; case " + c.String(), Replay: c})
 	}
 	return true
 }
